@@ -12,7 +12,15 @@
    The observation is what the recording handler received, what it emitted, and
    what the client read (decoded with the real UnmarshalJSON of the server
    message types by the harness; IScripted k = a TEXT frame decoding to a
-   message equal to scripted output number k). *)
+   message equal to scripted output number k).
+
+   A client message may be sent as several WebSocket fragments (data frame with
+   fin=0, CONTINUATION frames): RFC 6455 makes this transparent, the message is
+   the concatenation.  A [cframe] is therefore one MESSAGE whatever the number
+   of frames that carried it; neither the model (conn.Read returns whole
+   messages) nor the property distinguishes the two, so a fragmented message
+   is judged by both exactly as the same message in one frame.  How it was cut
+   is in the harness's JSON only ("frag"). *)
 From Moc Require Import Base Gate.
 Open Scope Z_scope.
 
